@@ -561,11 +561,16 @@ def backtest_init_rules(chk, pid):
     P = chk.summary(BACKTEST, "Backtest", "_process_data", host="Backtest")
     if pid == "C11":
         ad = P.writes("additional_data", SELF)
-        ok = bool(ad) and ad[0].value[0] == "mcall" and ad[0].value[2] == "copy"
+
+        def fresh(v):
+            """a new dict made from the caller's: d.copy() / dict(d)"""
+            return isinstance(v, tuple) and ((v[0] == "mcall" and v[2] == "copy" and not v[3]) or (v[0] == "call" and v[1] == "dict" and len(v[2]) == 1 and not v[3]))
+
+        ok = bool(ad) and all(fresh(w.value) for w in ad)
         chk.ob("C11.R1", ok, BACKTEST, "Backtest._process_data", "additional-data-copied", "the additional-data dict is copied before frames in it are re-framed", where=P.fn.where)
         for e in P.events:
             if e.kind == "store":
-                okb = (e.base[0] == "fld" and e.base[2] == "additional_data") or (e.base[0] == "mcall" and e.base[2] == "copy")
+                okb = (e.base[0] == "fld" and e.base[2] == "additional_data") or fresh(e.base)
                 chk.ob("C11.R1", okb, BACKTEST, "Backtest._process_data", "stores-hit-own-copy", "re-framed data is stored only into the backtest's own dict", where=e.where, found=short(e.base, 80))
         # the copy is shallow: its entries are still the caller's objects and must not be handed to code that stores into its arguments
         for e in P.events:
